@@ -3696,3 +3696,83 @@ func ruleDelimitedFieldSanitised(c *eng.Ctx) {
 		c.Ok(R, eng.FuncName(fn)+"#value", fn.Pos(), "not evaluated: no write of Cell.Value found in the function or its helpers")
 	}
 }
+
+// ---------------------------------------------------------------------------------------------------------------
+// R17.15 every cell value that goes out is written under the merge test.
+
+// R17.15 [C17]
+func ruleEveryValueUnderMergeTest(c *eng.Ctx) {
+	const R = "R17.15-EVERY-VALUE-UNDER-MERGE-TEST"
+	c.Rule(R, "in the Markdown, text and document-model writers of the xlsx reader every read of Cell.Value that is handed on (to a writer, an escaper or a model cell) stands under a test that lets only unmerged cells and merge roots through, the header row included: a covered cell of a merged region can hold a stale value in the file, and the value of a region belongs at its top-left cell only", 3, 0)
+	n := 0
+	for _, name := range []string{"xlsx.(*Reader).MarkdownWithOptions", "xlsx.(*Reader).TextWithOptions", "xlsx.(*Reader).Document"} {
+		root := c.P.Func(name)
+		if root == nil {
+			c.Undec(R, name, token.NoPos, "anchor not found")
+			continue
+		}
+		for _, fn := range eng.Cluster(root, 2) {
+			if fn.Pkg != root.Pkg {
+				continue
+			}
+			facts := eng.MustCross(fn, func(e eng.Edge) bool {
+				return eng.AnyEdgeFact(e, func(f eng.Fact) bool {
+					fr, ok := eng.LoadOfField(f.Cond)
+					if !ok {
+						if fl, isF := f.Cond.(*ssa.Field); isF {
+							fr, ok = eng.AsField(fl)
+						}
+					}
+					if !ok {
+						return false
+					}
+					return (fr.Field == "IsMerged" && !f.Pos) || (fr.Field == "IsMergeRoot" && f.Pos)
+				})
+			}, nil)
+			eng.Instrs(fn, false, func(in ssa.Instruction) {
+				var fr eng.FieldRef
+				ok := false
+				var val ssa.Value
+				switch x := in.(type) {
+				case *ssa.UnOp:
+					if x.Op == token.MUL {
+						fr, ok = eng.AsField(x.X)
+						val = x
+					}
+				case *ssa.Field:
+					fr, ok = eng.AsField(x)
+					val = x
+				}
+				if !ok || fr.Field != "Value" || !strings.HasSuffix(fr.Struct, "xlsx.Cell") {
+					return
+				}
+				// handed on: an argument of a call, or stored into a Text field
+				handed := false
+				if refs := val.Referrers(); refs != nil {
+					for _, r := range *refs {
+						switch y := r.(type) {
+						case ssa.CallInstruction:
+							handed = true
+						case *ssa.Store:
+							if y.Val == val {
+								if f2, ok := eng.AsField(y.Addr); ok && (f2.Field == "Text" || f2.Field == "Value") {
+									handed = true
+								}
+							}
+						case *ssa.Phi:
+							handed = true
+						}
+					}
+				}
+				if !handed {
+					return
+				}
+				n++
+				c.Check(facts[in.Block()], R, fmt.Sprintf("%s#Value@%s", eng.FuncName(fn), c.P.Pos(in.Pos())), in.Pos(), "read under the merge test", "a cell value is passed on without a test of IsMerged/IsMergeRoot: the covered cells of a merged region show whatever the file stores for them instead of being blank")
+			})
+		}
+	}
+	if n == 0 {
+		c.Undec(R, "xlsx#values", token.NoPos, "no read of Cell.Value that is handed on was found in the writers")
+	}
+}
